@@ -4,6 +4,8 @@ package interp
 
 import (
 	"fmt"
+	"os"
+	"runtime/debug"
 	"go/types"
 	"sort"
 	"strings"
@@ -130,6 +132,7 @@ type xstate struct {
 }
 
 var X = &xstate{}
+var HostStack = os.Getenv("GOSYM_HOSTSTACK") != ""
 var qkindStats map[string]int
 
 func EnableQueryStats() map[string]int { qkindStats = map[string]int{}; return qkindStats }
@@ -931,6 +934,9 @@ func (x *xstate) runPath(i *interpreter, fn *ssa.Function, it WorkItem) {
 				return
 			}
 			outcome = "panic"
+			if HostStack {
+				fmt.Fprintf(os.Stderr, "HOST PANIC %v\n%s\n", r, debug.Stack())
+			}
 			st := x.panicStack
 			if st == nil {
 				st = x.stack(12)
